@@ -2707,6 +2707,11 @@ def run_select_real(case):
     obs['anomalies'] = anomalies
     obs['intact'] = bool(np.array_equal(x, x0))
     obs['ref'] = sreal(x0)
+    # `DtIn.standard` (hypothesis of select_value_independent): on the unpatched module, does the numpy branch hand out
+    # the bit depth the other backends hand out?
+    with warnings.catch_warnings():
+        warnings.simplefilter('ignore')
+        obs['std'] = str(getattr(F, func_name)(x0.copy(), method='numpy').dtype) == str(getattr(F, func_name)(x0.copy(), method='scipy').dtype)
     return obs
 
 
@@ -2789,9 +2794,10 @@ def select_correspondence(ctx, case, obs, answer):
     mcalls = [] if m['calls'] == '-' else [c.split('.') for c in m['calls'].split(',')]
     rcalls = obs['calls']
     same_calls = len(mcalls) == len(rcalls) and all(mc[0] == rc[0] and (rc[1] is None or int(mc[1]) == rc[1]) for mc, rc in zip(mcalls, rcalls))
-    if sel != m['sel'] or not same_calls or int(m['warns']) != obs['warns'] or prec != m['prec'] or workers != m['workers']:
+    std = '1' if obs['std'] else '0'
+    if sel != m['sel'] or not same_calls or int(m['warns']) != obs['warns'] or prec != m['prec'] or workers != m['workers'] or std != m['std']:
         ctx.disagree('C19 select vs _make_func', {'case': case, 'model': answer,
-                                                'impl': {'sel': sel, 'calls': rcalls, 'warns': obs['warns'], 'prec': prec, 'workers': workers}})
+                                                'impl': {'sel': sel, 'calls': rcalls, 'warns': obs['warns'], 'prec': prec, 'workers': workers, 'std': std}})
 
 
 def run_select_tie(ctx):
@@ -2876,7 +2882,10 @@ def run_cache_real(kind, params, pre, alloc, via_config, new_style, script):
             err = float(np.max(np.abs(ra - fa))) / max(float(np.max(np.abs(fa))), 1e-300)
             key = lambda dt: '-' if dt is None else {'complex64': '64', 'complex128': '128'}.get(str(np.dtype(dt)), str(dt))
             if kind == 'mft':
-                state = 'm%si%s' % (key(obj.matrices_dtype), key(obj.intermediate_dtype))
+                # k: the recorded dtype describes the matrices (the model's `keyedB`, invariant of mft_call_independent)
+                keyed = (obj.M1 is None and obj.M2 is None) if obj.matrices_dtype is None else (
+                    obj.M1 is not None and obj.M2 is not None and str(obj.M1.dtype) == str(np.dtype(obj.matrices_dtype)) == str(obj.M2.dtype))
+                state = 'm%si%sk%d' % (key(obj.matrices_dtype), key(obj.intermediate_dtype), keyed)
                 consistent = ((obj.M1 is None) == (obj.matrices_dtype is None) and (obj.M2 is None) == (obj.M1 is None)
                               and (obj.intermediate_array is None) == (obj.intermediate_dtype is None)
                               and (obj.M1 is None or str(obj.M1.dtype) == str(np.dtype(obj.matrices_dtype)))
